@@ -171,4 +171,10 @@ theorem song_plays {song : Song} {d : DataInfo} (hpc : PlatformClean d) (hp : Pl
   · conv => rhs; rw [hsplit]
     exact List.prefix_append _ _
 
+theorem inDomain_segno {song : Song} {root : List Event} (h : Timeline.inDomain song root = true) :
+    Timeline.segnoAtDepth0 0 root = true := by
+  unfold Timeline.inDomain at h
+  simp only [Bool.and_eq_true] at h
+  exact h.1.1
+
 end Ctrmml.SongTop
